@@ -145,6 +145,8 @@ class C04Refine(Harness):
             region = env.np.asarray(data)[m]
             env.tag("adjust_values_constant_fit_region", region.size == 0 or float(region.max()) == float(region.min()))
         cand_vals = ([env.num(x) for x in cand.position], env.num(cand.radius))
+        cand_copy = cand.copy()
+        snapshot_vals = {idx: data[idx] for idx in cells_of(sp)}
         if cfg.get("proto"):
             kw["least_squares_params"] = dict(max_nfev=2)
         spy = []
@@ -154,8 +156,9 @@ class C04Refine(Harness):
             real_lsq = _so.least_squares
 
             def spying(fun, x0, *a, **k):
+                f0 = env.np.array(fun(env.np.array(x0, dtype=float)), dtype=float)
                 r = real_lsq(fun, x0, *a, **k)
-                spy.append(dict(x0=list(env.np.atleast_1d(x0)), x=list(r.x), kwargs=dict(k), success=bool(r.success)))
+                spy.append(dict(x0=list(env.np.atleast_1d(x0)), x=list(r.x), kwargs=dict(k), success=bool(r.success), f0=f0))
                 return r
 
             cand0 = cand.copy()
@@ -226,6 +229,26 @@ class C04Refine(Harness):
                     d0, d1 = dev(c0), dev(res)
                     env._rec("refinement minimises the squared deviation over the fitted region, which does not increase",
                              d1 <= d0 * (1 + 1e-7) + 1e-10, f"{d1!r} > {d0!r}")
+                if cfg["levels"] == "given" and not cfg["adjust"] and not cfg["sym"]:
+                    # the closure handed to the optimiser is the deviation itself: its sum of squares at the start is the
+                    # squared deviation of the candidate over the fitted region (the harness renders the candidate again)
+                    from scipy import ndimage as _ndi2
+                    cc = cand_copy if hasattr(cand_copy, "interface_width") else env.D.DiffuseDroplet.from_droplet(cand_copy)
+                    if cc.interface_width is None:
+                        cc.interface_width = grid.typical_discretization
+                    mk = _ndi2.binary_dilation(env.np.asarray(cc._get_phase_field(grid, dtype=bool), dtype=bool),
+                                               iterations=1 + int(2 * cc.interface_width))
+                    prof = cc._get_phase_field(grid)
+                    own = env.const(0)
+                    for idx in cells_of(sp):
+                        if mk[idx]:
+                            dlt = vmin + (vmax - vmin) * env.num(prof[idx]) - env.num(snapshot_vals[idx])
+                            own = own + dlt * dlt
+                    got = env.const(0)
+                    for v in env.np.asarray(c["f0"]).reshape(-1):
+                        got = got + env.num(v) * env.num(v)
+                    env.prove_eq("sum of squares of the residual handed to the optimiser = squared deviation of the candidate over "
+                                 "the fitted region", got, own)
                 # the returned droplet carries exactly the optimiser's result in its free parameters
                 flat = [env.num(x) for x in res.position] + [env.num(res.radius), env.num(res.interface_width)] + \
                     [env.num(a) for a in getattr(res, "amplitudes", [])]
